@@ -105,15 +105,17 @@ func bgAnalyseFn(c *Ctx, fn *ssa.Function, name string) *bgInfo {
 				}
 			} else if cal := staticCallee(&x.Call); cal != nil && cal.Blocks != nil && rootFn(cal).Pkg == rootFn(fn).Pkg && cal.Parent() == nil {
 				// out.spawn(func() { … }): an in-package helper that accounts for and starts the goroutine itself
+				launched := false
 				for ai, a := range x.Call.Args {
 					if f := literalOf(a, fn); f != nil && goLauncher(cal, ai) {
 						bi.spawned = append(bi.spawned, f)
 						bi.spawnHow[f] = "launcher"
 						bi.spawnAt[f] = x
+						launched = true
 					}
 				}
 				// c := out.startReader(bgCtx, s): an unexported helper that starts (and accounts for) a goroutine of its own
-				if !token.IsExported(cal.Name()) {
+				if !token.IsExported(cal.Name()) && !launched {
 					for _, g := range selfAccountedGoroutines(origin(cal)) {
 						bi.spawned = append(bi.spawned, g)
 						bi.spawnHow[g] = "helper"
